@@ -777,3 +777,1221 @@ func c16GC(free bool) {
 		debug.FreeOSMemory()
 	}
 }
+
+// ---------------------------------------------------------------------------
+// Part 1: histories over several readers
+// ---------------------------------------------------------------------------
+
+// c16Op is one operation of a history.  Tok is the token sent to the model:
+// r<i> ReadRows on reader i, t<i> typed read, k<i> clone the rows of the batch
+// last returned by reader i, s<i> SeekToRow, c<i> Close, x churn, g GC.
+type c16Op struct {
+	Tok   string `json:"op"`
+	N     int    `json:"n,omitempty"`              // batch size
+	K     int64  `json:"k,omitempty"`              // seek target
+	Reuse bool   `json:"reuse_dst,omitempty"`      // typed read into the destination of the previous typed read (the caller kept shallow copies)
+	Free  bool   `json:"free_os_memory,omitempty"` // g: also debug.FreeOSMemory
+}
+
+type c16ReaderSpec struct {
+	File  c16FileSpec `json:"file"`
+	Kind  string      `json:"kind"` // rows | reader | generic | whole
+	RG    int         `json:"row_group,omitempty"`
+	Async bool        `json:"async,omitempty"`
+}
+
+type c16HistCase struct {
+	Part      string          `json:"part"`
+	Readers   []c16ReaderSpec `json:"readers"`
+	Ops       []c16Op         `json:"ops"`
+	ChurnSeed int64           `json:"churn_seed"`
+	Workers   int             `json:"workers"`
+}
+
+func c16ParseTok(tok string) (code byte, reader int) {
+	if tok == "" {
+		return '?', -1
+	}
+	if len(tok) == 1 {
+		return tok[0], -1
+	}
+	var r int
+	if _, err := fmt.Sscanf(tok[1:], "%x", &r); err != nil {
+		return '?', -1
+	}
+	return tok[0], r
+}
+
+func c16Toks(ops []c16Op) string {
+	if len(ops) == 0 {
+		return "_"
+	}
+	parts := make([]string, len(ops))
+	for i, op := range ops {
+		parts[i] = op.Tok
+	}
+	return strings.Join(parts, ",")
+}
+
+// c16Entitled computes, for every operation of a history, the batches (numbered
+// by the operation that created them) the caller is entitled to afterwards,
+// and for k operations the batch they clone (-1: none, no batch is created).
+func c16Entitled(nreaders int, ops []c16Op) (ent [][]int, src []int) {
+	cur := make([]int, nreaders) // valid r-batch of each reader
+	for i := range cur {
+		cur[i] = -1
+	}
+	var forever []int
+	for j, op := range ops {
+		code, i := c16ParseTok(op.Tok)
+		s := -1
+		if i >= 0 && i < nreaders {
+			switch code {
+			case 'r':
+				cur[i] = j
+			case 't':
+				cur[i] = -1
+				forever = append(forever, j)
+			case 'k':
+				if cur[i] >= 0 {
+					s = cur[i]
+					forever = append(forever, j)
+				}
+			case 's', 'c':
+				cur[i] = -1
+			}
+		}
+		src = append(src, s)
+		set := append([]int(nil), forever...)
+		for _, b := range cur {
+			if b >= 0 {
+				set = append(set, b)
+			}
+		}
+		sort.Ints(set)
+		ent = append(ent, set)
+	}
+	return ent, src
+}
+
+func c16EntitledText(ent [][]int) string {
+	if len(ent) == 0 {
+		return "_"
+	}
+	fields := make([]string, len(ent))
+	for j, set := range ent {
+		if len(set) == 0 {
+			fields[j] = "_"
+			continue
+		}
+		parts := make([]string, len(set))
+		for x, b := range set {
+			parts[x] = fmt.Sprint(b)
+		}
+		fields[j] = strings.Join(parts, ".")
+	}
+	return strings.Join(fields, ";")
+}
+
+type c16Held struct {
+	id     int
+	kind   byte
+	reader int
+	canon  func() [][]byte // what the caller holds now, canonical, one entry per row / record
+	diff   func(before, after []byte) string
+	snap   [][]byte
+	ba     int // non-empty byte array values held
+	churns int
+}
+
+type c16Outcome struct {
+	class, what string
+	batch, op   int
+	nontrivial  bool
+	batches     int
+	compares    int
+	values      int
+}
+
+func (o *c16Outcome) fail(class string, batch, op int, format string, a ...any) {
+	if o.class == "" {
+		o.class, o.batch, o.op = class, batch, op
+		o.what = fmt.Sprintf(format, a...)
+	}
+}
+
+// c16Compare checks that a held batch still equals its snapshot.
+func (o *c16Outcome) compare(h *c16Held, op int, when string) {
+	if o.class != "" {
+		return
+	}
+	now := h.canon()
+	o.compares++
+	if len(now) != len(h.snap) {
+		o.fail("held-value-changed", h.id, op, "batch %d (%c of reader %d): held %d rows/records, now %d (%s)", h.id, h.kind, h.reader, len(h.snap), len(now), when)
+		return
+	}
+	for i := range now {
+		if !bytes.Equal(now[i], h.snap[i]) {
+			o.fail("held-value-changed", h.id, op, "batch %d (%c of reader %d) changed %s: row/record %d of the batch: %s", h.id, h.kind, h.reader, when, i, h.diff(h.snap[i], now[i]))
+			return
+		}
+	}
+}
+
+func c16HoldRows(id int, kind byte, reader int, rows []parquet.Row) *c16Held {
+	h := &c16Held{id: id, kind: kind, reader: reader, diff: c16DiffRow}
+	h.canon = func() [][]byte {
+		out := make([][]byte, len(rows))
+		for i, r := range rows {
+			out[i] = c16CanonRow(r)
+		}
+		return out
+	}
+	h.snap = h.canon()
+	for _, r := range rows {
+		h.ba += c16CountByteArrays(r)
+	}
+	return h
+}
+
+func c16HoldRecs(id int, reader int, recs []c16Rec) *c16Held {
+	h := &c16Held{id: id, kind: 't', reader: reader, diff: c16DiffBytes}
+	h.canon = func() [][]byte {
+		out := make([][]byte, len(recs))
+		for i := range recs {
+			out[i] = c16CanonGo(&recs[i], true)
+		}
+		return out
+	}
+	h.snap = h.canon()
+	h.ba = len(recs) * 6
+	return h
+}
+
+// c16Reader is one reader of a history.
+type c16Reader struct {
+	spec    c16ReaderSpec
+	b       *c16Built
+	rows    parquet.Rows
+	rd      *parquet.Reader
+	gr      *parquet.GenericReader[c16Rec]
+	off     int64 // global number of the reader's first row
+	total   int64
+	pos     int64
+	closed  bool
+	lastDst []c16Rec
+	one     c16Rec
+	spare   []parquet.Row // rows of an ended batch, recycled as destination
+}
+
+func c16NewReader(spec c16ReaderSpec, files map[string]*parquet.File) (*c16Reader, error) {
+	b, err := c16Build(spec.File)
+	if err != nil {
+		return nil, fmt.Errorf("building the file: %w", err)
+	}
+	r := &c16Reader{spec: spec, b: b, total: b.total}
+	if spec.Kind == "whole" {
+		return r, nil
+	}
+	fk := fmt.Sprintf("%s/%v", spec.File.key(), spec.Async)
+	f := files[fk]
+	if f == nil {
+		if f, err = b.open(spec.Async); err != nil {
+			return nil, fmt.Errorf("opening the file: %w", err)
+		}
+		files[fk] = f
+	}
+	switch spec.Kind {
+	case "rows":
+		if spec.RG >= len(b.rgRows) {
+			return nil, fmt.Errorf("no row group %d", spec.RG)
+		}
+		r.rows = f.RowGroups()[spec.RG].Rows()
+		r.off, r.total = b.rgOff[spec.RG], b.rgRows[spec.RG]
+	case "reader":
+		r.rd = parquet.NewReader(f)
+	case "generic":
+		if !spec.File.Typed {
+			return nil, fmt.Errorf("generic reader needs a typed file")
+		}
+		r.gr = parquet.NewGenericReader[c16Rec](f)
+	default:
+		return nil, fmt.Errorf("unknown reader kind %q", spec.Kind)
+	}
+	return r, nil
+}
+
+func (r *c16Reader) canTyped() bool {
+	return r.spec.File.Typed && (r.spec.Kind == "reader" || r.spec.Kind == "generic" || r.spec.Kind == "whole")
+}
+
+func (r *c16Reader) readRows(n int) (rows []parquet.Row, cnt int, err error) {
+	dst := make([]parquet.Row, n)
+	if len(r.spare) > 0 { // destination rows with capacity left over from an ended batch
+		copy(dst, r.spare)
+		r.spare = nil
+	}
+	switch {
+	case r.rows != nil:
+		cnt, err = r.rows.ReadRows(dst)
+	case r.rd != nil:
+		cnt, err = r.rd.ReadRows(dst)
+	case r.gr != nil:
+		cnt, err = r.gr.ReadRows(dst)
+	default:
+		return nil, 0, nil
+	}
+	if cnt < 0 || cnt > n {
+		return nil, cnt, fmt.Errorf("ReadRows returned %d for %d rows", cnt, n)
+	}
+	return dst[:cnt], cnt, err
+}
+
+// readTyped returns the Go values handed to the caller (shallow copies when
+// the destination is going to be reused) and the number of the first row.
+func (r *c16Reader) readTyped(n int, reuse bool) (held []c16Rec, first int64, err error) {
+	first = r.pos
+	switch {
+	case r.gr != nil:
+		var dst []c16Rec
+		if reuse && len(r.lastDst) > 0 {
+			dst = r.lastDst
+			if len(dst) > n {
+				dst = dst[:n]
+			}
+		} else {
+			dst = make([]c16Rec, n)
+		}
+		var cnt int
+		cnt, err = r.gr.Read(dst)
+		if cnt < 0 || cnt > len(dst) {
+			return nil, first, fmt.Errorf("Read returned %d for %d rows", cnt, len(dst))
+		}
+		r.lastDst = dst
+		held = append([]c16Rec(nil), dst[:cnt]...)
+	case r.rd != nil:
+		for j := 0; j < n; j++ {
+			rec := new(c16Rec)
+			if reuse {
+				rec = &r.one
+			}
+			if err = r.rd.Read(rec); err != nil {
+				break
+			}
+			held = append(held, *rec)
+		}
+	default: // whole file helpers
+		first = 0
+		if n%2 == 0 {
+			held, err = parquet.Read[c16Rec](bytes.NewReader(r.b.data), int64(len(r.b.data)))
+		} else {
+			var p string
+			if p, err = r.b.filePath(); err == nil {
+				held, err = parquet.ReadFile[c16Rec](p)
+			}
+		}
+	}
+	return held, first, err
+}
+
+func (r *c16Reader) seek(k int64) error {
+	switch {
+	case r.rows != nil:
+		return r.rows.SeekToRow(k)
+	case r.rd != nil:
+		return r.rd.SeekToRow(k)
+	case r.gr != nil:
+		return r.gr.SeekToRow(k)
+	}
+	return nil
+}
+
+func (r *c16Reader) close() error {
+	if r.closed {
+		return nil
+	}
+	r.closed = true
+	switch {
+	case r.rows != nil:
+		return r.rows.Close()
+	case r.rd != nil:
+		return r.rd.Close()
+	case r.gr != nil:
+		return r.gr.Close()
+	}
+	return nil
+}
+
+func c16ExecHist(cs *c16HistCase) *c16Outcome {
+	async := false
+	for _, r := range cs.Readers {
+		async = async || r.Async
+	}
+	if !async {
+		return c16ExecHistBody(cs)
+	}
+	ch := make(chan *c16Outcome, 1)
+	go func() { ch <- c16ExecHistBody(cs) }()
+	select {
+	case o := <-ch:
+		return o
+	case <-time.After(60 * time.Second):
+		o := &c16Outcome{}
+		o.fail("hang", -1, -1, "the history did not finish within 60s (async read mode)")
+		return o
+	}
+}
+
+func c16ExecHistBody(cs *c16HistCase) (o *c16Outcome) {
+	o = &c16Outcome{batch: -1, op: -1}
+	cur := -1
+	defer func() {
+		if r := recover(); r != nil {
+			o.fail("panic", -1, cur, "panic during op %d: %v", cur, r)
+		}
+	}()
+	files := map[string]*parquet.File{}
+	readers := make([]*c16Reader, len(cs.Readers))
+	for i, rs := range cs.Readers {
+		r, err := c16NewReader(rs, files)
+		if err != nil {
+			o.fail("file", -1, -1, "reader %d: %v", i, err)
+			return o
+		}
+		readers[i] = r
+	}
+	defer func() {
+		for _, r := range readers {
+			func() {
+				defer func() { _ = recover() }()
+				r.close()
+			}()
+		}
+	}()
+	ent, src := c16Entitled(len(readers), cs.Ops)
+	held := map[int]*c16Held{}
+	lastRows := map[int][]parquet.Row{} // batch -> the caller's rows (for k)
+	checkAll := func(j int, when string) {
+		for _, id := range ent[j] {
+			if h := held[id]; h != nil {
+				o.compare(h, j, when)
+			}
+		}
+	}
+	noteChurn := func(j int) {
+		for _, id := range ent[j] {
+			if h := held[id]; h != nil {
+				h.churns++
+				if h.ba > 0 {
+					o.nontrivial = true
+				}
+			}
+		}
+	}
+	for j, op := range cs.Ops {
+		if o.class != "" {
+			return o
+		}
+		cur = j
+		code, i := c16ParseTok(op.Tok)
+		var rd *c16Reader
+		if i >= 0 {
+			if i >= len(readers) {
+				o.fail("bad-op", -1, j, "op %q: no such reader", op.Tok)
+				return o
+			}
+			rd = readers[i]
+			if j > 0 && code != 'k' {
+				// the last moment the caller may look at the rows of reader i
+				for _, id := range ent[j-1] {
+					if h := held[id]; h != nil && h.kind == 'r' && h.reader == i {
+						o.compare(h, j-1, fmt.Sprintf("before op %d (%s)", j, op.Tok))
+					}
+				}
+			}
+		}
+		switch code {
+		case 'r':
+			// recycle the row slices of this reader's ended batch as destination
+			if j > 0 && op.N%2 == 1 {
+				for _, id := range ent[j-1] {
+					if h := held[id]; h != nil && h.kind == 'r' && h.reader == i {
+						rd.spare = lastRows[id]
+					}
+				}
+			}
+			first := rd.pos
+			rows, cnt, err := rd.readRows(op.N)
+			if err != nil && err != io.EOF && !rd.closed {
+				o.fail("error", -1, j, "op %d %s: ReadRows(%d) at row %d of %d: %v", j, op.Tok, op.N, first, rd.total, err)
+				return o
+			}
+			if rd.closed && cnt > 0 {
+				o.fail("wrong-value", j, j, "op %d %s: %d rows from a closed reader", j, op.Tok, cnt)
+				return o
+			}
+			if first+int64(cnt) > rd.total {
+				o.fail("wrong-value", j, j, "op %d %s: %d rows at row %d of %d", j, op.Tok, cnt, first, rd.total)
+				return o
+			}
+			for x, row := range rows {
+				want := rd.b.exp[rd.off+first+int64(x)]
+				if got := c16CanonRow(row); !bytes.Equal(got, want) {
+					o.fail("wrong-value", j, j, "op %d %s: row %d of the batch (row %d of the file) differs from what was written: %s", j, op.Tok, x, rd.off+first+int64(x), c16DiffRow(want, got))
+					return o
+				}
+			}
+			rd.pos += int64(cnt)
+			held[j] = c16HoldRows(j, 'r', i, rows)
+			lastRows[j] = rows
+			o.batches++
+			o.values += len(rows)
+		case 't':
+			recs, first, err := rd.readTyped(op.N, op.Reuse)
+			if err != nil && err != io.EOF && !rd.closed {
+				o.fail("error", -1, j, "op %d %s: typed read of %d rows at row %d of %d: %v", j, op.Tok, op.N, first, rd.total, err)
+				return o
+			}
+			if rd.closed && len(recs) > 0 && rd.spec.Kind != "whole" {
+				o.fail("wrong-value", j, j, "op %d %s: %d records from a closed reader", j, op.Tok, len(recs))
+				return o
+			}
+			if first+int64(len(recs)) > rd.total {
+				o.fail("wrong-value", j, j, "op %d %s: %d records at row %d of %d", j, op.Tok, len(recs), first, rd.total)
+				return o
+			}
+			for x := range recs {
+				want := c16MakeRec(rd.spec.File.Salt, int(first)+x, false, 2)
+				if g, w := c16CanonGo(&recs[x], false), c16CanonGo(&want, false); !bytes.Equal(g, w) {
+					o.fail("wrong-value", j, j, "op %d %s: record %d of the batch (row %d of the file) differs from what was written (id=%d s=%q m=%v, expected id=%d s=%q m=%v): %s",
+						j, op.Tok, x, int(first)+x, recs[x].ID, core.Trunc(recs[x].S, 40), recs[x].M, want.ID, core.Trunc(want.S, 40), want.M, c16DiffBytes(w, g))
+					return o
+				}
+			}
+			if rd.spec.Kind != "whole" {
+				rd.pos += int64(len(recs))
+			}
+			held[j] = c16HoldRecs(j, i, recs)
+			o.batches++
+			o.values += len(recs)
+		case 'k':
+			if s := src[j]; s >= 0 {
+				orig := lastRows[s]
+				clones := make([]parquet.Row, len(orig))
+				for x := range orig {
+					clones[x] = orig[x].Clone()
+				}
+				h := c16HoldRows(j, 'k', i, clones)
+				if hs := held[s]; hs != nil {
+					for x := range h.snap {
+						if !bytes.Equal(h.snap[x], hs.snap[x]) {
+							o.fail("wrong-value", j, j, "op %d %s: clone of row %d of batch %d differs from the row: %s", j, op.Tok, x, s, c16DiffRow(hs.snap[x], h.snap[x]))
+							return o
+						}
+					}
+				}
+				held[j] = h
+				o.batches++
+			}
+		case 's':
+			err := rd.seek(op.K)
+			if err != nil && !rd.closed {
+				o.fail("error", -1, j, "op %d %s: SeekToRow(%d) on %d rows: %v", j, op.Tok, op.K, rd.total, err)
+				return o
+			}
+			if err == nil {
+				rd.pos = op.K
+			}
+		case 'c':
+			if err := rd.close(); err != nil {
+				o.fail("error", -1, j, "op %d %s: Close: %v", j, op.Tok, err)
+				return o
+			}
+		case 'x':
+			c16Churn(cs.ChurnSeed+int64(j)*7919, cs.Workers)
+			noteChurn(j)
+		case 'g':
+			c16GC(op.Free)
+			noteChurn(j)
+		default:
+			o.fail("bad-op", -1, j, "unknown op %q", op.Tok)
+			return o
+		}
+		checkAll(j, fmt.Sprintf("after op %d (%s)", j, op.Tok))
+	}
+	if o.class != "" || len(cs.Ops) == 0 {
+		return o
+	}
+	last := len(cs.Ops) - 1
+	cur = len(cs.Ops)
+	c16Churn(cs.ChurnSeed+104729, cs.Workers)
+	c16GC(false)
+	noteChurn(last)
+	checkAll(last, "after the final churn and GC")
+	for _, r := range readers {
+		r.close()
+	}
+	c16Churn(cs.ChurnSeed+1299709, 0)
+	for _, id := range ent[last] {
+		if h := held[id]; h != nil && h.kind != 'r' {
+			o.compare(h, last, "after every reader was closed")
+		}
+	}
+	return o
+}
+
+// ---------------------------------------------------------------------------
+// checking, shrinking and generating histories
+// ---------------------------------------------------------------------------
+
+type c16Stats struct {
+	batches, compares, values int
+	reported                  map[string]int
+}
+
+var c16Stat = c16Stats{reported: map[string]int{}}
+
+// c16CheckHist runs a history, evaluates the predicate and the correspondence
+// of the entitlement computation with the model.  Returns the failure class.
+func c16CheckHist(c *core.Ctx, cs *c16HistCase, suffix string) (*c16Outcome, string) {
+	o := c16ExecHist(cs)
+	if o.class != "" {
+		c.Violation(o.class+suffix, fmt.Sprintf("%s [readers=%d ops=%s]", o.what, len(cs.Readers), c16Toks(cs.Ops)),
+			map[string]any{"case": cs, "batch": o.batch, "after_op": o.op})
+		return o, o.class
+	}
+	if c.HasOracle() {
+		ent, _ := c16Entitled(len(cs.Readers), cs.Ops)
+		impl := c16EntitledText(ent)
+		req := fmt.Sprintf("c16.replay %x %s", len(cs.Readers), c16Toks(cs.Ops))
+		if model := c.Ask(req); model != impl {
+			c.Mismatch("corr:C16.entitled", req, impl, model, cs)
+			return o, "corr"
+		}
+	}
+	return o, ""
+}
+
+func c16HistFails(c *core.Ctx, cs *c16HistCase) (bool, string) {
+	class := ""
+	failed := c.Probe(func() { _, class = c16CheckHist(c, cs, "") })
+	return failed, class
+}
+
+func c16NoReuse(cs *c16HistCase) (*c16HistCase, bool) {
+	t := *cs
+	t.Ops = append([]c16Op(nil), cs.Ops...)
+	had := false
+	for i := range t.Ops {
+		if t.Ops[i].Reuse {
+			t.Ops[i].Reuse, had = false, true
+		}
+	}
+	return &t, had
+}
+
+// c16ShrinkHist drops operations and readers' work while the failure stays.
+func c16ShrinkHist(c *core.Ctx, cs *c16HistCase, class string) *c16HistCase {
+	cur := *cs
+	budget := 150
+	try := func(t *c16HistCase) bool {
+		if budget <= 0 {
+			return false
+		}
+		budget--
+		f, k := c16HistFails(c, t)
+		return f && k == class
+	}
+	if cur.Workers > 0 {
+		t := cur
+		t.Workers = 0
+		if try(&t) {
+			cur = t
+		}
+	}
+	for changed := true; changed && budget > 0; {
+		changed = false
+		for i := len(cur.Ops) - 1; i >= 0; i-- {
+			t := cur
+			t.Ops = append(append([]c16Op(nil), cur.Ops[:i]...), cur.Ops[i+1:]...)
+			if try(&t) {
+				cur, changed = t, true
+			}
+		}
+	}
+	for i := range cur.Ops {
+		for _, n := range []int{1, 2, 3} {
+			if cur.Ops[i].N > n {
+				t := cur
+				t.Ops = append([]c16Op(nil), cur.Ops...)
+				t.Ops[i].N = n
+				if try(&t) {
+					cur = t
+					break
+				}
+			}
+		}
+	}
+	return &cur
+}
+
+// c16RunHist checks one history; a failing one is classified (does it need a
+// reused destination?), shrunk and reported once per class.
+func c16RunHist(c *core.Ctx, cs *c16HistCase, bucket string) bool {
+	key, _ := json.Marshal(cs)
+	o := (*c16Outcome)(nil)
+	class := ""
+	failed := c.Probe(func() { o, class = c16CheckHist(c, cs, "") })
+	c.Case(bucket, string(key), o != nil && o.nontrivial)
+	if o != nil {
+		c16Stat.batches += o.batches
+		c16Stat.compares += o.compares
+		c16Stat.values += o.values
+	}
+	if !failed {
+		return true
+	}
+	if class == "corr" {
+		c16CheckHist(c, cs, "")
+		return false
+	}
+	suffix := ""
+	t := cs
+	if u, had := c16NoReuse(cs); had {
+		if f, k := c16HistFails(c, u); f {
+			t, class = u, k
+		} else {
+			suffix = "-reused-destination"
+			// the rest of the history still deserves a look
+			defer c16RunHist(c, u, bucket)
+		}
+	}
+	c16Stat.reported[class+suffix]++
+	if c16Stat.reported[class+suffix] > 1 {
+		return false
+	}
+	min := c16ShrinkHist(c, t, class)
+	c16CheckHist(c, min, suffix)
+	return false
+}
+
+var c16BatchSizes = []int{1, 2, 3, 5, 17, 64, 200}
+
+// c16GenHist draws a history over 2..4 readers of files from the pool.
+func c16GenHist(rng *rand.Rand, pool []c16FileSpec, maxOps int) *c16HistCase {
+	cs := &c16HistCase{Part: "hist", ChurnSeed: rng.Int63n(1 << 40)}
+	if rng.Intn(2) == 0 {
+		cs.Workers = 2 + rng.Intn(3)
+	}
+	nr := 2 + rng.Intn(3)
+	type info struct {
+		total int64
+		typed bool
+		kind  string
+	}
+	var infos []info
+	for len(cs.Readers) < nr {
+		spec := pool[rng.Intn(len(pool))]
+		b, err := c16Build(spec)
+		if err != nil {
+			cs.Readers = append(cs.Readers, c16ReaderSpec{File: spec, Kind: "rows"})
+			infos = append(infos, info{total: 1, kind: "rows"})
+			continue
+		}
+		rs := c16ReaderSpec{File: spec, Async: rng.Intn(4) == 0}
+		total := b.total
+		if spec.Typed {
+			rs.Kind = []string{"rows", "reader", "generic", "generic", "whole"}[rng.Intn(5)]
+		} else {
+			rs.Kind = []string{"rows", "reader"}[rng.Intn(2)]
+		}
+		if rs.Kind == "rows" {
+			rs.RG = rng.Intn(len(b.rgRows))
+			total = b.rgRows[rs.RG]
+		}
+		if rs.Kind == "whole" {
+			rs.Async = false
+		}
+		cs.Readers = append(cs.Readers, rs)
+		infos = append(infos, info{total: total, typed: spec.Typed && rs.Kind != "rows", kind: rs.Kind})
+	}
+	n := 4 + rng.Intn(maxOps-3)
+	for len(cs.Ops) < n {
+		i := rng.Intn(nr)
+		in := infos[i]
+		x := rng.Intn(100)
+		tok := func(code byte) string { return fmt.Sprintf("%c%x", code, i) }
+		switch {
+		case x < 30:
+			if in.kind == "whole" {
+				cs.Ops = append(cs.Ops, c16Op{Tok: tok('t'), N: rng.Intn(2)})
+			} else {
+				cs.Ops = append(cs.Ops, c16Op{Tok: tok('r'), N: c16BatchSizes[rng.Intn(len(c16BatchSizes))]})
+			}
+		case x < 45:
+			if in.typed {
+				op := c16Op{Tok: tok('t'), N: c16BatchSizes[rng.Intn(5)], Reuse: rng.Intn(5) == 0}
+				if in.kind == "reader" && op.N > 5 {
+					op.N = 5
+				}
+				cs.Ops = append(cs.Ops, op)
+			} else {
+				cs.Ops = append(cs.Ops, c16Op{Tok: tok('r'), N: c16BatchSizes[rng.Intn(len(c16BatchSizes))]})
+			}
+		case x < 55:
+			cs.Ops = append(cs.Ops, c16Op{Tok: tok('k')})
+		case x < 67:
+			if in.kind != "whole" {
+				cs.Ops = append(cs.Ops, c16Op{Tok: tok('s'), K: rng.Int63n(in.total + 1)})
+			}
+		case x < 70:
+			cs.Ops = append(cs.Ops, c16Op{Tok: tok('c')})
+		case x < 92:
+			cs.Ops = append(cs.Ops, c16Op{Tok: "x"})
+		default:
+			cs.Ops = append(cs.Ops, c16Op{Tok: "g", Free: rng.Intn(4) == 0})
+		}
+	}
+	return cs
+}
+
+// ---------------------------------------------------------------------------
+// Part 1b: pages (values and dictionary values until the page is released)
+// ---------------------------------------------------------------------------
+
+type c16PagesCase struct {
+	Part      string      `json:"part"`
+	File      c16FileSpec `json:"file"`
+	Async     bool        `json:"async,omitempty"`
+	RG        int         `json:"row_group"`
+	Col       int         `json:"column"`
+	Hold      int         `json:"hold"` // pages the caller keeps before releasing the oldest
+	MaxPages  int         `json:"max_pages"`
+	ChurnSeed int64       `json:"churn_seed"`
+	Workers   int         `json:"workers"`
+}
+
+func c16HoldValues(id int, kind byte, vals []parquet.Value) *c16Held {
+	return c16HoldRows(id, kind, 0, []parquet.Row{vals})
+}
+
+func c16ExecPages(cs *c16PagesCase) (o *c16Outcome) {
+	o = &c16Outcome{batch: -1, op: -1}
+	pageNo := -1
+	defer func() {
+		if r := recover(); r != nil {
+			o.fail("panic", -1, pageNo, "panic at page %d: %v", pageNo, r)
+		}
+	}()
+	b, err := c16Build(cs.File)
+	if err != nil {
+		o.fail("file", -1, -1, "building the file: %v", err)
+		return o
+	}
+	f, err := b.open(cs.Async)
+	if err != nil {
+		o.fail("file", -1, -1, "opening the file: %v", err)
+		return o
+	}
+	if cs.RG >= len(b.rgRows) || cs.Col >= b.ncols {
+		o.fail("bad-op", -1, -1, "no such row group / column")
+		return o
+	}
+	// expected values of the column chunk, in order
+	var want [][]byte
+	for _, row := range b.rows[b.rgOff[cs.RG] : b.rgOff[cs.RG]+b.rgRows[cs.RG]] {
+		for _, v := range row {
+			if v.Column() == cs.Col {
+				want = append(want, c16AppendValue(nil, v))
+			}
+		}
+	}
+	cc := f.RowGroups()[cs.RG].ColumnChunks()[cs.Col]
+	pages := cc.Pages()
+	defer pages.Close()
+	type heldPage struct {
+		page parquet.Page
+		h    []*c16Held
+	}
+	var pending []heldPage
+	checkAll := func(when string) {
+		for _, hp := range pending {
+			for _, h := range hp.h {
+				if h.ba > 0 {
+					o.nontrivial = true
+				}
+				o.compare(h, pageNo, when)
+			}
+		}
+	}
+	pos := 0
+	for pageNo = 0; pageNo < cs.MaxPages && o.class == ""; pageNo++ {
+		pg, err := pages.ReadPage()
+		if err != nil {
+			if err != io.EOF {
+				o.fail("error", -1, pageNo, "ReadPage %d: %v", pageNo, err)
+			}
+			break
+		}
+		vals := make([]parquet.Value, pg.NumValues())
+		vr := pg.Values()
+		n := 0
+		for n < len(vals) {
+			k, err := vr.ReadValues(vals[n:])
+			n += k
+			if err != nil || k == 0 {
+				break
+			}
+		}
+		vals = vals[:n]
+		for x, v := range vals {
+			got := c16AppendValue(nil, v)
+			if pos+x >= len(want) || !bytes.Equal(got, want[pos+x]) {
+				w := []byte(nil)
+				if pos+x < len(want) {
+					w = want[pos+x]
+				}
+				o.fail("wrong-value", pageNo, pageNo, "page %d: value %d (value %d of the chunk) differs from what was written: was {%s}, now {%s}", pageNo, x, pos+x, c16DescribeValue(w), c16DescribeValue(got))
+				break
+			}
+		}
+		pos += n
+		hp := heldPage{page: pg, h: []*c16Held{c16HoldValues(pageNo, 'p', vals)}}
+		o.batches++
+		o.values += n
+		if d := pg.Dictionary(); d != nil && d.Len() > 0 {
+			dv := make([]parquet.Value, d.Len())
+			for x := range dv {
+				dv[x] = d.Index(int32(x))
+			}
+			hp.h = append(hp.h, c16HoldValues(pageNo, 'd', dv))
+		}
+		pending = append(pending, hp)
+		c16Churn(cs.ChurnSeed+int64(pageNo)*31, map[bool]int{true: cs.Workers, false: 0}[pageNo%4 == 0])
+		if pageNo%3 == 1 {
+			c16GC(false)
+		}
+		checkAll(fmt.Sprintf("while the page is held (after reading page %d and churn)", pageNo))
+		for len(pending) >= cs.Hold {
+			parquet.Release(pending[0].page)
+			pending = pending[1:]
+		}
+	}
+	checkAll("before the last pages are released")
+	for _, hp := range pending {
+		parquet.Release(hp.page)
+	}
+	return o
+}
+
+func c16RunPages(c *core.Ctx, cs *c16PagesCase, bucket string) bool {
+	key, _ := json.Marshal(cs)
+	var o *c16Outcome
+	failed := c.Probe(func() {
+		o = c16ExecPages(cs)
+		if o.class != "" {
+			c.Violation(o.class, o.what, cs)
+		}
+	})
+	c.Case(bucket, string(key), o.nontrivial)
+	c16Stat.batches += o.batches
+	c16Stat.compares += o.compares
+	c16Stat.values += o.values
+	if !failed {
+		return true
+	}
+	class := o.class
+	c16Stat.reported[class]++
+	if c16Stat.reported[class] > 1 {
+		return false
+	}
+	min := *cs
+	for _, t := range []func(*c16PagesCase){
+		func(t *c16PagesCase) { t.Workers = 0 },
+		func(t *c16PagesCase) { t.Hold = 1 },
+		func(t *c16PagesCase) { t.MaxPages = o.op + 1 },
+	} {
+		u := min
+		t(&u)
+		if c.Probe(func() {
+			if r := c16ExecPages(&u); r.class == o.class {
+				c.Violation(r.class, r.what, u)
+			}
+		}) {
+			min = u
+		}
+	}
+	r := c16ExecPages(&min)
+	if r.class == "" {
+		r, min = o, *cs
+	}
+	c.Violation(class, fmt.Sprintf("%s [ColumnChunk.Pages of row group %d column %d]", r.what, min.RG, min.Col), min)
+	return false
+}
+
+// ---------------------------------------------------------------------------
+// Part 1c: buffers re-read after more writes, after sort, after reset
+// ---------------------------------------------------------------------------
+
+type c16BufCase struct {
+	Part       string `json:"part"`
+	Generic    bool   `json:"generic"`    // GenericBuffer[T].Write, else Buffer
+	Rows       bool   `json:"write_rows"` // write through WriteRows
+	Sort       string `json:"sort"`       // "", id-desc, s, d, u
+	Salt       int    `json:"salt"`
+	Batches    []int  `json:"batches"`
+	SortAfter  int    `json:"sort_after"`  // sort.Sort after this batch (-1: never)
+	ResetAfter int    `json:"reset_after"` // Reset after this batch (-1: never)
+	ReadBatch  int    `json:"read_batch"`
+	ChurnSeed  int64  `json:"churn_seed"`
+	Workers    int    `json:"workers"`
+}
+
+type c16AnyBuffer interface {
+	parquet.RowGroup
+	sort.Interface
+	WriteRows([]parquet.Row) (int, error)
+	Reset()
+}
+
+func c16ExecBuf(cs *c16BufCase) (o *c16Outcome) {
+	o = &c16Outcome{batch: -1, op: -1}
+	step := -1
+	defer func() {
+		if r := recover(); r != nil {
+			o.fail("panic", -1, step, "panic at step %d: %v", step, r)
+		}
+	}()
+	var opts []parquet.RowGroupOption
+	var less func(a, b *c16Rec) bool
+	switch cs.Sort {
+	case "id-desc":
+		opts = append(opts, parquet.SortingRowGroupConfig(parquet.SortingColumns(parquet.Descending("id"))))
+		less = func(a, b *c16Rec) bool { return a.ID > b.ID }
+	case "s":
+		opts = append(opts, parquet.SortingRowGroupConfig(parquet.SortingColumns(parquet.Ascending("s"))))
+		less = func(a, b *c16Rec) bool { return a.S < b.S }
+	case "d":
+		opts = append(opts, parquet.SortingRowGroupConfig(parquet.SortingColumns(parquet.Ascending("d"), parquet.Ascending("s"))))
+		less = func(a, b *c16Rec) bool { return a.D < b.D || a.D == b.D && a.S < b.S }
+	case "u":
+		opts = append(opts, parquet.SortingRowGroupConfig(parquet.SortingColumns(parquet.Descending("u"))))
+		less = func(a, b *c16Rec) bool { return bytes.Compare(a.U[:], b.U[:]) > 0 }
+	}
+	var buf c16AnyBuffer
+	var gbuf *parquet.GenericBuffer[c16Rec]
+	var pbuf *parquet.Buffer
+	if cs.Generic {
+		gbuf = parquet.NewGenericBuffer[c16Rec](opts...)
+		buf = gbuf
+	} else {
+		pbuf = parquet.NewBuffer(append([]parquet.RowGroupOption{c16Schema}, opts...)...)
+		buf = pbuf
+	}
+	mk := func(id int) c16Rec { return c16MakeRec(cs.Salt, id, false, 1) }
+	expRow := func(id int) []byte {
+		r := mk(id)
+		return c16CanonRow(c16Schema.Deconstruct(nil, &r))
+	}
+	var order []int // ids in buffer order
+	sorted := 0     // the first `sorted` rows went through sort.Sort (order known up to ties)
+	var forever []*c16Held
+	checkHeld := func(when string) {
+		for _, h := range forever {
+			if h.ba > 0 {
+				o.nontrivial = true
+			}
+			o.compare(h, step, when)
+		}
+	}
+	next := 0
+	rng := rand.New(rand.NewSource(cs.ChurnSeed))
+	for bi, n := range cs.Batches {
+		if o.class != "" {
+			return o
+		}
+		step = bi
+		recs := make([]c16Rec, n)
+		for j := range recs {
+			recs[j] = mk(next + j)
+			order = append(order, next+j)
+		}
+		next += n
+		var err error
+		switch {
+		case cs.Rows:
+			rows := make([]parquet.Row, n)
+			for j := range recs {
+				rows[j] = c16Schema.Deconstruct(nil, &recs[j])
+			}
+			_, err = buf.WriteRows(rows)
+		case cs.Generic:
+			_, err = gbuf.Write(recs)
+		default:
+			for j := range recs {
+				if err = pbuf.Write(&recs[j]); err != nil {
+					break
+				}
+			}
+		}
+		if err != nil {
+			o.fail("error", -1, bi, "write of batch %d: %v", bi, err)
+			return o
+		}
+		if bi == cs.SortAfter && less != nil {
+			sort.Sort(buf)
+			sorted = len(order)
+		}
+		// read everything back through Rows()
+		rows := buf.Rows()
+		var got []parquet.Row
+		for {
+			dst := make([]parquet.Row, cs.ReadBatch)
+			k, err := rows.ReadRows(dst)
+			got = append(got, dst[:k]...)
+			if err != nil || k == 0 {
+				if err != nil && err != io.EOF {
+					o.fail("error", -1, bi, "ReadRows after batch %d: %v", bi, err)
+					return o
+				}
+				break
+			}
+		}
+		if len(got) != len(order) {
+			o.fail("wrong-value", bi, bi, "after batch %d the buffer returns %d rows, %d were written", bi, len(got), len(order))
+			return o
+		}
+		seen := map[int]bool{}
+		actual := make([]int, len(got))
+		for x, row := range got {
+			id := -1
+			if len(row) > 0 && row[0].Column() == 0 && row[0].Kind() == parquet.Int64 {
+				id = int(row[0].Int64())
+			}
+			if x >= sorted {
+				id = order[x] // insertion order is known exactly
+			}
+			if id < 0 || id >= next || seen[id] {
+				o.fail("wrong-value", bi, bi, "after batch %d: row %d of the buffer has id %d (out of range or repeated)", bi, x, id)
+				return o
+			}
+			seen[id] = true
+			actual[x] = id
+			if w, g := expRow(id), c16CanonRow(row); !bytes.Equal(w, g) {
+				o.fail("wrong-value", bi, bi, "after batch %d (writes of %v rows, sort after batch %d): row %d of the buffer (id %d) differs from what was written: %s", bi, cs.Batches[:bi+1], cs.SortAfter, x, id, c16DiffRow(w, g))
+				return o
+			}
+			if x > 0 && x < sorted && bi == cs.SortAfter {
+				a, b := mk(actual[x-1]), mk(id)
+				if less(&b, &a) {
+					o.fail("wrong-value", bi, bi, "after sort.Sort: rows %d and %d of the buffer (ids %d, %d) are out of order", x-1, x, actual[x-1], id)
+					return o
+				}
+			}
+			if x < sorted && bi != cs.SortAfter && id != order[x] {
+				o.fail("wrong-value", bi, bi, "after batch %d: row %d of the buffer has id %d, it had id %d before the write", bi, x, id, order[x])
+				return o
+			}
+		}
+		order = actual
+		// the rows are valid until the next call on the reader / change of the buffer
+		rh := c16HoldRows(bi, 'r', 0, got)
+		c16Churn(cs.ChurnSeed+int64(bi), 0)
+		o.compare(rh, bi, "while the buffer is unchanged (after churn)")
+		// clones and Go values are the caller's for ever
+		clones := make([]parquet.Row, len(got))
+		for x := range got {
+			clones[x] = got[x].Clone()
+		}
+		forever = append(forever, c16HoldRows(bi, 'k', 0, clones))
+		gr := parquet.NewGenericRowGroupReader[c16Rec](buf)
+		typed := make([]c16Rec, len(order))
+		k, err := gr.Read(typed)
+		if err != nil && err != io.EOF {
+			o.fail("error", -1, bi, "typed read after batch %d: %v", bi, err)
+			return o
+		}
+		for x := 0; x < k; x++ {
+			want := mk(order[x])
+			if g, w := c16CanonGo(&typed[x], false), c16CanonGo(&want, false); !bytes.Equal(g, w) || k != len(order) {
+				o.fail("wrong-value", bi, bi, "typed read after batch %d: record %d (id %d; %d of %d records) differs from what was written: %s", bi, x, order[x], k, len(order), c16DiffBytes(w, g))
+				return o
+			}
+		}
+		forever = append(forever, c16HoldRecs(bi, 0, typed[:k]))
+		o.batches += 3
+		o.values += 3 * len(got)
+		rows.Close()
+		gr.Close()
+		checkHeld(fmt.Sprintf("after reading the buffer back (batch %d)", bi))
+		if bi == cs.ResetAfter {
+			buf.Reset()
+			order, sorted = nil, 0
+			checkHeld("after Buffer.Reset")
+		}
+		if rng.Intn(2) == 0 {
+			c16Churn(cs.ChurnSeed+int64(bi)*13, cs.Workers)
+			c16GC(false)
+			checkHeld("after churn and GC")
+		}
+	}
+	step = len(cs.Batches)
+	buf.Reset()
+	c16Churn(cs.ChurnSeed+77, cs.Workers)
+	c16GC(false)
+	checkHeld("after the final Reset, churn and GC")
+	return o
+}
+
+func c16RunBuf(c *core.Ctx, cs *c16BufCase, bucket string) bool {
+	key, _ := json.Marshal(cs)
+	o := c16ExecBuf(cs)
+	c.Case(bucket, string(key), o.nontrivial)
+	c16Stat.batches += o.batches
+	c16Stat.compares += o.compares
+	c16Stat.values += o.values
+	if o.class == "" {
+		return true
+	}
+	class := o.class
+	c16Stat.reported[class]++
+	if c16Stat.reported[class] > 1 {
+		return false
+	}
+	// shrink: fewer and smaller batches
+	min := *cs
+	same := func(t *c16BufCase) bool { r := c16ExecBuf(t); return r.class == o.class }
+	for changed, budget := true, 80; changed && budget > 0; {
+		changed = false
+		for i := range min.Batches {
+			for _, n := range []int{1, min.Batches[i] / 2, min.Batches[i] - 1} {
+				if n >= 1 && n < min.Batches[i] && budget > 0 {
+					budget--
+					t := min
+					t.Batches = append([]int(nil), min.Batches...)
+					t.Batches[i] = n
+					if same(&t) {
+						min, changed = t, true
+						break
+					}
+				}
+			}
+		}
+		if len(min.Batches) > 1 && budget > 0 {
+			budget--
+			t := min
+			t.Batches = min.Batches[:len(min.Batches)-1]
+			if same(&t) {
+				min, changed = t, true
+			}
+		}
+	}
+	min.Workers = 0
+	r := c16ExecBuf(&min)
+	if r.class != o.class {
+		r, min = o, *cs
+	}
+	c.Violation(class, r.what, min)
+	return false
+}
